@@ -19,8 +19,8 @@ RULE = ('scripted models (1-4 variables, 1-5 periods) run as a sequence of 1-4 c
         'and out of the span, infeasible periods (lags/leads), hooks that write), then random call sequences incl. repeated solves of one '
         'period (same names, other names of the same width, another width = finding #16, reset=True, tracing switched off in between), '
         'TRACE_VARIABLES None / subset / empty, unknown names, t outside the span, solve() with unknown start / end labels, start > end, lags / '
-        'leads up to and beyond the span length with default start / end; finally parser-built (C01-grammar) models — 8 scripts with '
-        'lags, leads, parameters, 1/X, log, exp (contractive, divergent, faulting) — whose generated _evaluate is the inner oracle: the '
+        'leads up to and beyond the span length with default start / end; finally parser-built (C01-grammar) models — 12 scripts with '
+        'lags (1, 2), leads (1, 2), parameters, 1/X, log, exp, sqrt, max (contractive, divergent, faulting) — whose generated _evaluate is the inner oracle: the '
         'columns it leaves after every pass (recorded on the untraced twin) become the action script of the Coq model for that run. '
         'Non-trivial = some call ran >= 2 evaluation passes or ended in an exception; distinct by hash of the whole case.')
 TRUSTED = ['scripted-model subclasses harness/scripted.py + harness/scripted_tracer.py (the same scripts are the Coq oracles; the Recorder layer '
@@ -174,6 +174,10 @@ PARSED = [
     ('Y = 0.5 * Y + X[1]', ['Y', 'X']),
     ('C = 0.6 * Y\nI = 0.2 * Y[-1]\nY = C + I + G', ['C', 'I', 'Y', 'G']),
     ('Y = exp(X) * Y', ['Y', 'X']),
+    ('Y = max(X, 0) + 0.5 * Y[-1]', ['Y', 'X']),
+    ('K = K[-1] + I\nI = 0.1 * Y\nY = C + I + G\nC = 0.5 * Y[-2]', ['K', 'I', 'Y', 'C', 'G']),
+    ('Y = 0.25 * Y + X[2]', ['Y', 'X']),
+    ('Y = sqrt(X) + 0.5 * Z[-1]', ['Y', 'X', 'Z']),
 ]
 
 
@@ -715,11 +719,11 @@ def gen(rng, tier):
                         c['calls'] = [_call(entry, p, 4, o, a, reset, neg)]
                     cases.append(c)
     # ---- random call sequences
-    n_rand = 4500 if tier == 'quick' else 45000
+    n_rand = 3800 if tier == 'quick' else 32000
     for _ in range(n_rand):
         cases.append(_random_case(rng, scen))
     # ---- parser-built models: the inner _evaluate is fsic's generated code
-    for _ in range(800 if tier == 'quick' else 8000):
+    for _ in range(700 if tier == 'quick' else 6000):
         cases.append(_parsed_case(rng))
     return cases
 
